@@ -184,10 +184,7 @@ class SBool:
 
 
 class _SNum:
-    __slots__ = ('_term',)
-
-    def __init__(self, t):
-        self._term = t
+    __slots__ = ()
 
     def __hash__(self):
         return hash(self._term)
@@ -289,7 +286,10 @@ def _pow_checked(a, e):
 
 
 class SReal(_SNum):
-    __slots__ = ()
+    __slots__ = ('_term',)
+
+    def __init__(self, t):
+        self._term = t
 
     def __float__(self):
         raise Unsupported('float() of a symbolic real')
@@ -319,8 +319,29 @@ class SReal(_SNum):
         raise Unsupported('round() of a symbolic real')
 
 
-class SInt(_SNum):
-    __slots__ = ()
+class SInt(_SNum, int):
+    """Symbolic integer.  It subclasses `int` so that `isinstance(time_step, int)` in the code under
+    verification takes the same branch as for a concrete step; the underlying int value (0) is never
+    meaningful: every arithmetic/comparison dunder is overridden and __index__/__int__ refuse."""
+
+    def __new__(cls, t):
+        obj = int.__new__(cls, 0)
+        obj._term = t
+        return obj
+
+    def __init__(self, t):
+        pass
+
+    def __hash__(self):
+        return hash(self._term)
+
+    def __repr__(self):
+        return 'SInt(%s)' % tm.show(self._term)
+
+    __str__ = __repr__
+
+    def __format__(self, spec):
+        return repr(self)
 
     def __index__(self):
         raise Unsupported('symbolic integer used as a concrete index (%s)' % tm.show(self._term))
@@ -433,6 +454,7 @@ class Path:
         self.traceback = ''
         self.exc_file = ''
         self.exc_line = 0
+        self.exc_src = ''
 
     def facts(self, hyps):
         return list(hyps) + self.assumed + self.pc
@@ -470,6 +492,7 @@ def explore(run, hyps=(), max_paths=200, decide_timeout_ms=3000):
             frames = _tb.extract_tb(e.__traceback__)
             p.exc_file = frames[-1].filename if frames else ''
             p.exc_line = frames[-1].lineno if frames else 0
+            p.exc_src = (frames[-1].line or '') if frames else ''
         finally:
             Ctx.current = None
         p.decisions = list(c.trace)
